@@ -205,6 +205,20 @@ def build_world(case, order: str, rng):
         record.create_regions()
         for g in reversed(genes):
             record.add_cds_feature(g)
+    elif order == "cleared-regions":
+        # regions are created and cleared again (not re-created) before the genes arrive: the remaining areas must
+        # still pick their genes up
+        for p in protos:
+            record.add_protocluster(p())
+        for s in subs:
+            record.add_subregion(s())
+        record.create_candidate_clusters()
+        record.create_regions()
+        record.clear_regions()
+        for g in genes:
+            record.add_cds_feature(g)
+        if rng.random() < 0.5:
+            record.create_regions()
     elif order == "late-areas":
         # regions exist already when further areas arrive (without re-creating regions), genes come last or in between
         pending = list(genes)
@@ -294,7 +308,7 @@ def gen_world(rng):
 
 def run_world(ctx, case, index=0):
     dumps = {}
-    for order in ("genes-first", "areas-first", "interleaved", "late-areas"):
+    for order in ("genes-first", "areas-first", "interleaved", "late-areas", "cleared-regions"):
         try:
             record = build_world(case, order, ctx.rng("order", index))
         except Exception as err:  # pylint: disable=broad-except
